@@ -467,9 +467,59 @@ fn config_name(i: usize) -> String {
     )
 }
 
+/// The stored witnesses of the known findings: (class, setup statements, query).  On each the
+/// legacy planner and the graph-native planner are run on the same store.
+fn witnesses() -> Vec<(&'static str, Vec<&'static str>, &'static str)> {
+    vec![
+        (
+            "native_multi_label",
+            vec!["CREATE (:L0 {uid: 1})", "CREATE (:L0:L1 {uid: 2})"],
+            "MATCH (n:L0:L1) RETURN n.uid AS a",
+        ),
+        (
+            "native_undirected",
+            vec!["CREATE (:L1 {uid: 1})-[:R {eid: 1}]->(:L1 {uid: 2})"],
+            "MATCH (n:L1)-[r]-(m) RETURN n.uid AS a, r.eid AS b, m.uid AS c",
+        ),
+        (
+            "native_rel_uniqueness",
+            vec!["CREATE (:L0 {uid: 1})", "MATCH (a {uid: 1}) CREATE (a)-[:R {eid: 1}]->(a)"],
+            "MATCH (a)-[r1]->(b)-[r2]->(c) RETURN a.uid AS a, r1.eid AS b, r2.eid AS c",
+        ),
+        (
+            "native_expand_label",
+            vec![
+                "CREATE (:L1 {uid: 1})",
+                "CREATE (:L0 {uid: 2})",
+                "CREATE (:L0 {uid: 3})",
+                "CREATE (:L0 {uid: 4})",
+                "MATCH (a {uid: 1}) CREATE (a)-[:R {eid: 1}]->(a)",
+            ],
+            "MATCH (n:L1)-[r]->(m:L0) RETURN n.uid AS a, r.eid AS b, m.uid AS c",
+        ),
+    ]
+}
+
+fn replay_witness(setup: &[&str], query: &str) -> (String, String) {
+    let mut store = GraphStore::new();
+    let e = QueryEngine::new();
+    for s in setup {
+        let _ = e.execute_mut(s, &mut store, "default");
+    }
+    let q = Query { text: query.to_string(), params: HashMap::new(), model: None, uses_adjacency: true, template: 0 };
+    (digest(&exec(&store, &q, false, false)), digest(&exec(&store, &q, true, false)))
+}
+
 fn main() {
     let args = parse_args();
     quiet_panics();
+    if std::env::var("C02_PROBE").is_ok() {
+        for (class, setup, query) in witnesses() {
+            let (l, n) = replay_witness(&setup, query);
+            println!("{}: {}\n   legacy {}\n   native {}", class, query, l, n);
+        }
+        return;
+    }
     let child_out = std::env::var("C02_CHILD_OUT").ok();
     let mut out = Out::new(&args, "From Verif Require Import Value Index.", "Index.case", "Index.check_case", 60);
     out.rule = "random histories (6-40 operations: node/relationship creates, property sets with type changes, property and \
@@ -660,6 +710,14 @@ fn main() {
         out.count_n("compared_with_second_process", compared);
         let _ = std::fs::remove_file(&tmp);
         let _ = std::fs::remove_dir_all(args.out.join("child"));
+    }
+    for (class, setup, query) in witnesses() {
+        let (legacy, native) = replay_witness(&setup, query);
+        out.known.push(KnownReplay {
+            class: class.to_string(),
+            still_fails: legacy != native,
+            detail: format!("{:?} then `{}`: legacy planner {}, graph-native planner {}", setup, query, legacy, native),
+        });
     }
     out.finish();
 }
